@@ -6,6 +6,8 @@ import Rva.Model.Basic
 import Rva.Model.Ops
 import Rva.Model.Imm
 import Rva.Model.Lexer
+import Rva.Model.Parser
+import Rva.Model.Pipeline
 open Rva
 
 def showInt32 (w : Word) : String := toString w.toInt
@@ -14,6 +16,19 @@ def parseInt32 (s : String) : Word :=
   match s.toInt? with
   | some i => BitVec.ofInt 32 i
   | none => 0
+
+def filesOfArgs : Nat → List String → List (String × String)
+  | 0, _ => []
+  | k + 1, n :: t :: rest => (stringOfHex n, stringOfHex t) :: filesOfArgs k rest
+  | _, _ => []
+
+def parseTrace (files : List (String × String)) : List String :=
+  match files with
+  | [] => ["BADOP"]
+  | (base, _) :: _ =>
+    let out := parseFiles files base
+    (out.nodes.zipIdx.map fun (n, i) => s!"NODE {i} {n.trace}") ++
+    (out.errors.map fun e => s!"PERR {e.trace}")
 
 def handle (line : String) : List String :=
   match line.trimAscii.toString.splitOn " " with
@@ -30,6 +45,12 @@ def handle (line : String) : List String :=
     | some v => [s!"CSRIMM {v}"]
     | none => ["CSRIMM ERR"]
   | ["lex", h] => (lexString (stringOfHex h)).map LexItem.trace
+  | "parse" :: k :: rest => parseTrace (filesOfArgs k.toNat! rest)
+  | "pipe" :: stages :: k :: rest =>
+    let files := filesOfArgs k.toNat! rest
+    let extra := rest.drop (2 * k.toNat!)
+    let desc := extra.contains "desc"
+    pipeTrace (stages.splitOn ",") files desc
   | _ => ["BADOP"]
 
 partial def loop (h : IO.FS.Stream) (out : IO.FS.Stream) : IO Unit := do
